@@ -204,6 +204,15 @@ def _grid(ctx: Ctx) -> typing.Iterable[typing.Any]:
             else:
                 m["statements"] = [_sealed(), {"s": "marker"}, {"s": "field", "type": u8, "name": name}, _sealed()]
             yield {"skeleton": m, "edits": [], "grid": "name:" + role}
+    for name in rg.FILE_BAD_NAMES:
+        for role in ("short", "ns"):
+            m = _base()
+            m["statements"] = [_sealed()]
+            if role == "short":
+                m["short"] = name
+            else:
+                m["ns"] = ["ok", name]
+            yield {"skeleton": m, "edits": [], "grid": "name:" + role}
     # --- fixed port-IDs around every boundary
     ports = [0, 1, 255, 256, 257, 382, 383, 384, 385, 510, 511, 512, 513, 6142, 6143, 6144, 6145, 7166, 7167, 7168, 7169, 8190, 8191, 8192, 8193, 65535]
     for root in ("uavcan", "cyphal", "vendor", "uavcanx"):
